@@ -615,6 +615,7 @@ func checkC15(c *Ctx) string {
 	}
 
 	checkChainBookkeeping(c, "C15.7 K14 chain bookkeeping of WriteChain")
+	checkCreatedMark(c, "C15.8 K4 the no-tombstone mark is set only for keys absent from the map")
 	return "Static shape of the generation-guarded path copying in util/hamt: every field/element store, copy and in-place append into a trie node is on a path where the node variable was " +
 		"assigned from &node{} or dup(), or has been compared equal to the generation parameter (with/without/pullUp), and that parameter is the Hamt's generation at every call; Mutable returns " +
 		"generation+positive constant with a fresh/dup'ed root stamped with it, Freeze keeps generation and root, no other code builds a Hamt with fields or assigns them; Put/Delete reach the " +
